@@ -178,6 +178,20 @@ fn malformed_alphabet() -> Vec<&'static str> {
 fn main_check(ctx: &Ctx) -> Outcome {
     quiet_panics();
     let mut out = Outcome::default();
+    // the functions under test must not consult the environment: a few representative inputs under a cleared and two
+    // hostile settings of the colour-related variables (before any worker thread exists)
+    fn env_digest() -> Vec<String> {
+        ["", "0", "01;31", "38;5;9;48;2;1;2;3;4", "58;5;9;24", "x", "1;;2", "90;107;3"].iter().map(|t| format!("{:?}", anstyle_ls::parse(t))).collect::<Vec<String>>()
+    }
+    if let Err(m) = vexplore::util::env_independence(env_digest) {
+        out.findings.push(Finding {
+            system: "anstyle_ls::parse".into(),
+            clause: "environment-dependence".into(),
+            case: vec!["representative inputs".into()],
+            message: m.chars().take(900).collect(),
+            replay: serde_json::json!({"kind":"env"}),
+        });
+    }
     let quick = ctx.quick();
     let col = Collector::new(5);
     let mut acc = Acc::default();
@@ -478,6 +492,7 @@ fn replay(v: &serde_json::Value) -> Result<(), String> {
             .join()
             .map_err(|_| "history thread panicked".to_string())?
         }
+        "env" => Err("environment-dependence findings are replayed by re-running the check".into()),
         k => Err(format!("unknown replay kind {k}")),
     }
 }
